@@ -5,7 +5,8 @@
    continuation prefixes (marker sequences: "Q" = '> ', "B" = '- ', "I" = two spaces, "F" = four spaces).
    Content line kinds: "plain", "blank", "ind" (leading spaces), "q" (looks like a quote prefix '> x'), "b" (looks like
    a list item '- x'), and fence look-alikes "t3" "t4" "t5" (3/4/5 backticks) and "w3" "w4" (3/4 tildes), "t3x" (three
-   backticks followed by text: not a closing fence but counted by the code).
+   backticks followed by text: not a closing fence but counted by the code), "s3" / "sw3" (three backticks / tildes indented by
+   1-3 spaces: CommonMark accepts a closing fence indented up to 3 spaces).
    The machine emits one line per action: Open, Content(i), Close.  Properties:
      ContentVerbatim  -- the emitted content lines are the authored lines, in order, each behind the continuation prefix,
      BlankNoTrailing  -- an empty content line carries the right-stripped prefix (no trailing spaces),
@@ -27,9 +28,10 @@ Blocks == [fc : {"`", "~"}, fl : {0, 3, 4}, info : {"none", "lang", "lang+extra"
            lines : UNION {[1..n -> Kinds] : n \in 0..MaxLines}]
 Legal(b) == /\ (b.fl = 0 => b.fc = "`" /\ b.info = "none" /\ b.lines # <<>> /\ b.lines[1] # "blank" /\ b.lines[Len(b.lines)] # "blank")
             \* the authored block must itself be well formed: no content line closes it early
+            /\ \A j \in 1..Len(b.lines) : ~(b.fl > 0 /\ b.fl <= 3 /\ ((b.fc = "`" /\ b.lines[j] = "s3") \/ (b.fc = "~" /\ b.lines[j] = "sw3")))
             /\ \A j \in 1..Len(b.lines) : ~(b.fl > 0 /\ b.fc = "`" /\ ((b.lines[j] = "t3" /\ b.fl <= 3) \/ (b.lines[j] = "t4" /\ b.fl <= 4) \/ b.lines[j] = "t5"))
             /\ \A j \in 1..Len(b.lines) : ~(b.fl > 0 /\ b.fc = "~" /\ ((b.lines[j] = "w3" /\ b.fl <= 3) \/ (b.lines[j] = "w4" /\ b.fl <= 4)))
-Run(kind, fc) == CASE kind \in {"t3", "t3x"} /\ fc = "`" -> 3 [] kind = "t4" /\ fc = "`" -> 4 [] kind = "t5" /\ fc = "`" -> 5
+Run(kind, fc) == CASE kind \in {"t3", "t3x", "s3"} /\ fc = "`" -> 3 [] kind = "sw3" /\ fc = "~" -> 3 [] kind = "t4" /\ fc = "`" -> 4 [] kind = "t5" /\ fc = "`" -> 5
                    [] kind = "w3" /\ fc = "~" -> 3 [] kind = "w4" /\ fc = "~" -> 4 [] OTHER -> 0
 Max(S) == IF S = {} THEN 0 ELSE CHOOSE x \in S : \A y \in S : y <= x
 \* rstrip("\n") on the content drops trailing blank lines (finding D26) unless TrimTrailingBlank = FALSE
